@@ -935,6 +935,34 @@ def mon_C08(ctx):
                 elif not iter_end_in_round:
                     ctx.bad('exclusion-without-end-of-iteration', TRUE)
             dirty = True
+    _c08_stable_exits(ctx)
+
+
+mon_C08.needs_surplus_hist = True
+
+
+def _c08_stable_exits(ctx):
+    "a round may end as 'stable' only when the total surplus did not decrease from the previous iteration of that round"
+    E = ctx.E
+    hist = ctx.extra.get('surplus_hist')
+    if hist is None:
+        return
+    logs = E.erecord['actions']
+    rational = rec.is_rational(E.V)
+    for L, A in enumerate(logs):
+        if A['tag'] != 'log' or not A['msg'].startswith('Stable state detected'):
+            continue
+        upto = [h for h in hist if h[0] <= L]
+        if not upto or upto[-1][0] != L:
+            ctx.bad('stable-exit-without-a-surplus-calculation', TRUE)
+            continue
+        cur = num(ctx, upto[-1][1])
+        if len(upto) >= 2 and upto[-2][0] == L:
+            prev = num(ctx, upto[-2][1])
+        else:
+            prev = (ctx.N * (1 if rational else ctx.S), 1 if rational else ctx.S)     # first iteration of the round: compared with the ballot total
+        ctx.reach('stable-exit-compared')
+        ctx.bad('stable-exit-while-surplus-still-decreasing', a_lt(ctx, cur, prev))
 
 
 # ---------------------------------------------------------------------------------------------------
